@@ -27,6 +27,14 @@ Definition distinct_b (h : history) : bool := nodup_b (stamps h).
 Definition fifo_linearizable (h : history) : Prop :=
   linearizable (list Z) (op Z) (out Z) fifo_step [] (map to_op h).
 
+(* the contents q of the queue as sequential enqueues stamped t+1, t+2, ..., t+2|q| (used to record a history
+   that starts with a non-empty queue: Proofs_Lin.prefix_encoding) *)
+Fixpoint pre_events (t : Z) (q : list Z) : history :=
+  match q with
+  | [] => []
+  | v :: q' => {| inv := t + 1; resp := t + 2; who := 0; what := HEnq v |} :: pre_events (t + 2) q'
+  end.
+
 (* boolean equalities for the checker *)
 Definition qcall_eqb (a b : op Z) : bool :=
   match a, b with
